@@ -397,6 +397,17 @@ class Installed:
         self._set(h5mod, 'open', sim_open)
         self._set(h5mod, 'gzip', _GzipProxy())
         self._set(h5mod, 'h5py', _H5pyProxy())
+        if self.deliver is not None:
+            # Signal delivery points *inside* an HDF5 save: the saver recurses over the results in Python and
+            # makes one h5py call per object, so a signal handler can run between any two of them (with pickle
+            # the whole dump is a single C call).  Class attribute rebound from outside, restored on exit.
+            orig_save = h5mod.Hdf5Saver.save
+
+            def save_with_delivery_point(saver, obj, path='/'):
+                _deliver('h5.save_object')
+                return orig_save(saver, obj, path)
+
+            self._set(h5mod.Hdf5Saver, 'save', save_with_delivery_point)
         if self.clock is not None:
             import tenpy.algorithms.algorithm as m1
             import tenpy.algorithms.dmrg as m2
